@@ -417,6 +417,101 @@ fn thread_crowd_leg(acc: &mut Acc, n: usize) {
     }
 }
 
+/// Many threads inside the *serialization* step of `RuleSet::evaluate(&T)` at the same moment
+/// (there is no await point in it, so no interleaving of suspended evaluations ever overlaps two
+/// of them).  H holder threads each serialize a value nested `depth` deep whose innermost
+/// `Serialize` impl parks on a barrier; while all of them are parked, the coordinating thread
+/// evaluates a small input of its own; then the holders are released.  Every evaluation must give
+/// what it gives alone.  Deterministic: the barrier fixes the overlap.
+fn serialization_crowd_leg(acc: &mut Acc, holders: usize, depth: usize) {
+    use crate::spec::eval::{observe, Obs};
+    use reval::prelude::*;
+    use serde::ser::SerializeSeq;
+    use std::collections::BTreeMap;
+    use std::sync::atomic::{AtomicBool, AtomicUsize, Ordering};
+    use std::sync::Arc;
+    // (arrived at the gate, released)
+    struct Gated {
+        depth: usize,
+        gate: Option<Arc<(AtomicUsize, AtomicBool)>>,
+    }
+    impl serde::Serialize for Gated {
+        fn serialize<S: serde::Serializer>(&self, s: S) -> Result<S::Ok, S::Error> {
+            if self.depth == 0 {
+                if let Some(g) = &self.gate {
+                    g.0.fetch_add(1, Ordering::SeqCst);
+                    let t0 = std::time::Instant::now();
+                    while !g.1.load(Ordering::SeqCst) && t0.elapsed() < Duration::from_secs(60) {
+                        std::thread::sleep(Duration::from_millis(1));
+                    }
+                }
+                s.serialize_i8(1)
+            } else {
+                let mut q = s.serialize_seq(Some(1))?;
+                q.serialize_element(&Gated { depth: self.depth - 1, gate: self.gate.clone() })?;
+                q.end()
+            }
+        }
+    }
+    let rs = Arc::new(
+        ruleset()
+            .with_rule(Rule::new("whole", BTreeMap::new(), Expr::parse("is_some(facts)").unwrap()))
+            .and_then(|b| b.with_rule(Rule::new("first", BTreeMap::new(), Expr::parse("is_some(facts.0)").unwrap())))
+            .unwrap()
+            .build(),
+    );
+    let eval = |rs: &RuleSet, v: &Gated| -> Vec<Obs> {
+        match crate::engine::exec::block_on(rs.evaluate(v)) {
+            Ok(Ok(o)) => o.into_iter().map(|x| observe(Ok(x.value))).collect(),
+            other => vec![Obs::Panic(format!("{:?}", other.map(|r| r.map(|o| o.len()).map_err(|e| e.to_string()))))],
+        }
+    };
+    let alone_deep = eval(&rs, &Gated { depth, gate: None });
+    let alone_small = eval(&rs, &Gated { depth: 30, gate: None });
+    let gate = Arc::new((AtomicUsize::new(0), AtomicBool::new(false)));
+    let finished = Arc::new(AtomicUsize::new(0));
+    let mut hs = Vec::new();
+    for _ in 0..holders {
+        let (rs, gate, finished) = (rs.clone(), gate.clone(), finished.clone());
+        hs.push(std::thread::spawn(move || {
+            let r = match crate::engine::exec::block_on(rs.evaluate(&Gated { depth, gate: Some(gate) })) {
+                Ok(Ok(o)) => o.into_iter().map(|x| observe(Ok(x.value))).collect::<Vec<Obs>>(),
+                other => vec![Obs::Panic(format!("{:?}", other.map(|r| r.map(|o| o.len()).map_err(|e| e.to_string()))))],
+            };
+            finished.fetch_add(1, Ordering::SeqCst);
+            r
+        }));
+    }
+    // wait until every holder is parked inside its innermost Serialize impl (or gave up early: a
+    // holder that fails before it gets there must not hang the check)
+    let t0 = std::time::Instant::now();
+    while gate.0.load(Ordering::SeqCst) + finished.load(Ordering::SeqCst) < holders && t0.elapsed() < Duration::from_secs(30) {
+        std::thread::sleep(Duration::from_millis(1));
+    }
+    let small = eval(&rs, &Gated { depth: 30, gate: None });
+    gate.1.store(true, Ordering::SeqCst);
+    let deep: Vec<Vec<Obs>> = hs.into_iter().map(|h| h.join().unwrap_or_else(|_| vec![Obs::Panic("holder thread panicked".into())])).collect();
+    acc.count("executions", holders as u64 + 1);
+    acc.count("serialization_crowd_evaluations", holders as u64 + 1);
+    let show = |v: &Vec<Obs>| v.iter().map(|o| o.show()).collect::<Vec<_>>();
+    if small != alone_small {
+        acc.violation(Violation {
+            sig: "serialization-crowd/bystander".into(),
+            what: format!("while {holders} threads were each {depth} levels deep inside the serialization of their input, a 30-level input evaluated to {:?}; alone it gives {:?}", show(&small), show(&alone_small)),
+            case: json!({"kind": "serialization-crowd", "holders": holders, "depth": depth}),
+            size: holders,
+        });
+    } else if let Some(bad) = deep.iter().find(|d| **d != alone_deep) {
+        acc.violation(Violation {
+            sig: "serialization-crowd/holder".into(),
+            what: format!("{holders} threads serializing {depth}-level inputs at the same moment: one evaluated to {:?}; alone it gives {:?}", show(bad), show(&alone_deep)),
+            case: json!({"kind": "serialization-crowd", "holders": holders, "depth": depth}),
+            size: holders,
+        });
+    }
+    acc.outcome("serialization-crowd:completed");
+}
+
 fn stress_facts(round: usize, t: usize) -> reval::prelude::Value {
     use reval::prelude::Value;
     // `other` (and ts2/num2) are the same never-seen-before values for all threads of a round,
@@ -441,7 +536,7 @@ fn stress_facts(round: usize, t: usize) -> reval::prelude::Value {
 /// schedules); it is here because synchronisation primitives *inside* reval would be invisible to
 /// loom.  A mismatch it finds is real (the baseline comes from an identically built ruleset that
 /// is only ever evaluated sequentially); silence proves nothing.
-fn stress_leg(acc: &mut Acc, rounds: usize) {
+fn stress_leg(acc: &mut Acc, rounds: usize, free_rounds: usize) {
     use super::probe::*;
     use crate::spec::eval::{observe, Obs};
     use reval::prelude::*;
@@ -536,12 +631,12 @@ fn stress_leg(acc: &mut Acc, rounds: usize) {
             let (rs, start) = (shared.clone(), start.clone());
             hs.push(std::thread::spawn(move || {
                 start.wait();
-                (0..rounds).map(|round| eval(&rs, &cast_facts(round, t))).collect::<Vec<_>>()
+                (0..free_rounds).map(|round| eval(&rs, &cast_facts(round, t))).collect::<Vec<_>>()
             }));
         }
         let res: Vec<Vec<Vec<Obs>>> = hs.into_iter().map(|h| h.join().unwrap_or_default()).collect();
         for (t, per_thread) in res.iter().enumerate() {
-            if per_thread.len() != rounds {
+            if per_thread.len() != free_rounds {
                 wrong += 1;
                 first.get_or_insert(format!("free-running thread {t} died"));
             }
@@ -555,7 +650,7 @@ fn stress_leg(acc: &mut Acc, rounds: usize) {
                 }
             }
         }
-        acc.count("stress_evaluations_sampled_not_deciding", (free_threads * rounds) as u64);
+        acc.count("stress_evaluations_sampled_not_deciding", (free_threads * free_rounds) as u64);
     }
     acc.count("stress_evaluations_sampled_not_deciding", (threads * rounds) as u64);
     if let Some(f) = first {
@@ -659,7 +754,11 @@ pub fn run(tier: Tier) -> i32 {
         thread_crowd_leg(&mut acc, n);
     }
     rep.bound("thread_crowd_sizes", crowd);
-    stress_leg(&mut acc, tier.pick(2000, 10000));
+    for (h, d) in tier.pick(vec![(16usize, 100usize), (40, 40)], vec![(16, 100), (40, 40), (64, 200), (200, 20)]) {
+        serialization_crowd_leg(&mut acc, h, d);
+    }
+    rep.bound("serialization_crowd", tier.pick("16 threads x 100 levels, 40 x 40", "16 x 100, 40 x 40, 64 x 200, 200 x 20"));
+    stress_leg(&mut acc, tier.pick(2000, 10000), tier.pick(100_000, 600_000));
     acc.sample("scenario", 1, || json!({"two": "2 threads, rules [c(id), n(id), c(id), c(other), bad(id)], inputs {id:1,other:2} / {id:2,other:1}, every user-function call suspends once", "handoff": "thread 0 polls an evaluation once, hands the future to thread 1 which finishes it while thread 0 runs another evaluation"}));
     let hits = scan_repo();
     let unmodelled: Vec<&String> = hits.iter().filter(|h| !h.contains("lazy_static") && !h.contains("EMPTY_RULES")).collect();
@@ -715,10 +814,12 @@ pub fn replay(case: &serde_json::Value) -> i32 {
                 }
             }
         }
-        Some(k @ ("migration" | "thread-crowd")) => {
+        Some(k @ ("migration" | "thread-crowd" | "serialization-crowd")) => {
             let mut acc = Acc::new();
             if k == "migration" {
                 migration_leg(&mut acc, 200);
+            } else if k == "serialization-crowd" {
+                serialization_crowd_leg(&mut acc, case.get("holders").and_then(|n| n.as_u64()).unwrap_or(16) as usize, case.get("depth").and_then(|n| n.as_u64()).unwrap_or(100) as usize);
             } else {
                 thread_crowd_leg(&mut acc, case.get("n").and_then(|n| n.as_u64()).unwrap_or(17) as usize);
             }
